@@ -130,7 +130,7 @@ def cache_step(sel: List[int]) -> bool:
     """
     try:
         cur = Cur()
-        present = [rd(sel, cur, 2) == 1 for _ in QNAMES]  # which names have a docstring at all
+        present = [rd(sel, cur, 3) for _ in QNAMES]  # per name: griffe knows no such node / node without docstring / with docstring
         cached = rd(sel, cur, len(QNAMES) + 1)  # arbitrary pre-state: nothing cached, or any of the names
         asked = rd(sel, cur, len(QNAMES))
         getter = rd(sel, cur, 2)
@@ -138,7 +138,8 @@ def cache_step(sel: List[int]) -> bool:
         return True
     from griffe.enumerations import Parser
 
-    table = {q: _Node(f"Doc of {q}." if present[i] else None) for i, q in enumerate(QNAMES)}
+    table = {q: (None if present[i] == 0 else _Node(f"Doc of {q}." if present[i] == 2 else None)) for i, q in enumerate(QNAMES)}
+    lookup = lambda name: table[name].docstring if table.get(name) is not None else None  # noqa: E731
     p = DocstringParser.__new__(DocstringParser)
     p.parser = Parser.numpy
     p._get_griffe_node = lambda qname: table.get(qname)
@@ -146,7 +147,7 @@ def cache_step(sel: List[int]) -> bool:
         p._DocstringParser__cached_node, p._DocstringParser__cached_docstring = None, None
     else:
         p._DocstringParser__cached_node = QNAMES[cached]
-        p._DocstringParser__cached_docstring = table[QNAMES[cached]].docstring  # the invariant
+        p._DocstringParser__cached_docstring = lookup(QNAMES[cached])  # the invariant
     q = QNAMES[asked]
     if getter == 0:
         doc = p.get_function_documentation(shim.mk(shim.N.FuncDef, fullname=q, name=q.split(".")[-1]))
@@ -156,14 +157,12 @@ def cache_step(sel: List[int]) -> bool:
         got = None if res == [] else "results"
     note("oracle")
     labels = [] if FRESH_OK else ["cache-invariant-not-established-by-init"]
-    want = f"Doc of {q}." if present[asked] else ""
+    want = f"Doc of {q}." if present[asked] == 2 else ""
     if getter == 0 and got != want:
         labels.append("documentation-of-another-element-returned")
     node, ds = p._DocstringParser__cached_node, p._DocstringParser__cached_docstring
-    if node is not None and ds is not table[node].docstring:
-        labels.append("cache-invariant-broken")
-    if node != q:
-        labels.append("cache-not-keyed-on-asked-name")
+    if node is not None and ds is not lookup(node):
+        labels.append("cache-invariant-broken")  # the next query for the cached name would get the wrong documentation
     return judge(labels)
 
 
@@ -221,7 +220,7 @@ def CANDIDATES(func: str):
         for sel in itertools.product(range(2), range(5)):
             yield [list(sel) + [0] * 8]
     elif func == "cache_step":
-        for sel in itertools.product(range(2), range(2), range(2), range(2), range(5), range(4), range(2)):
+        for sel in itertools.product(range(3), range(3), range(3), range(3), range(5), range(4), range(2)):
             yield [list(sel) + [0] * 3]
     else:
         for sel in itertools.product(range(3), range(15), range(13), range(3), [1]):
